@@ -63,10 +63,10 @@ def classify(g, path, subjects):
     return None
 
 
-def subjects_of(facts):
+def subjects_of(facts, trait=TRAIT):
     subs = {}
     for item in SUBJECT_ITEMS:
-        tdef = '%s::%s' % (TRAIT, item)
+        tdef = '%s::%s' % (trait, item)
         if tdef in facts.bodies:
             subs[tdef] = item
         for impl_def, im in facts.trait_impls.get(tdef, []):
@@ -75,12 +75,12 @@ def subjects_of(facts):
     return subs
 
 
-def run(facts, rep):
-    subs = subjects_of(facts)
-    n_default = sum(1 for k in subs if k.startswith(TRAIT + '::'))
+def run(facts, rep, trait=TRAIT):
+    subs = subjects_of(facts, trait)
+    n_default = sum(1 for k in subs if k.startswith(trait + '::'))
     n_over = len(subs) - n_default
-    rep.floor('E3 default gcd-like bodies', n_default, 3)
-    rep.floor('E3 overriding gcd-like bodies', n_over, 12)
+    rep.floor('E3 default gcd-like bodies', n_default, 3 if trait == TRAIT else 1)
+    rep.floor('E3 overriding gcd-like bodies', n_over, 12 if trait == TRAIT else 0)
     npaths = 0
     for k, item in sorted(subs.items()):
         b = facts.bodies[k]
